@@ -104,7 +104,12 @@ def declare_unknown_callees(src, frontend, X):
         m = re.search(r"cannot find function `(\w+)` in this scope", fe.get("message", ""))
         if m and m.group(1) not in names:
             names.append(m.group(1))
-    if not names:
+    methods = []
+    for fe in frontend:
+        m = re.search(r"no method named `(\w+)` found for (?:mutable reference|reference|struct) `(?:&mut |&)?(\w+)", fe.get("message", ""))
+        if m and (m.group(1), m.group(2)) not in methods:
+            methods.append((m.group(1), m.group(2)))
+    if not names and not methods:
         return None, []
     files = []
     for it in X.items:
@@ -127,6 +132,22 @@ def declare_unknown_callees(src, frontend, X):
         ret = re.sub(r"\bResult<([^,<>]+(?:<[^<>]*>)?)>", r"Result<\1, Error>", sig[2])
         decls.append("#[verifier::external_body] pub fn %s%s(%s) %s { unimplemented!() }" % (nm, sig[0], sig[1], ret))
         notes.append("R9-auto: callee `%s` (%s) is not under contract; declared external with its real signature and NO contract (any result)" % (nm, sig[3]))
+    for nm, ty in methods:
+        sig = None
+        for f in files:
+            try:
+                text = X.read(f)
+            except Exception:
+                continue
+            m = re.search(r"\bfn %s\s*(<[^>]*>)?\s*\((\s*&?(?:mut )?self[^{;]*?)\)\s*(->\s*[^{;]+?)?\s*\{" % re.escape(nm), text, re.S)
+            if m:
+                sig = (m.group(1) or "", " ".join(m.group(2).split()), " ".join((m.group(3) or "").split()), f)
+                break
+        if sig is None:
+            return None, []
+        ret = re.sub(r"\bResult<([^,<>]+(?:<[^<>]*>)?)>", r"Result<\1, Error>", sig[2])
+        decls.append("impl %s { #[verifier::external_body] pub fn %s%s(%s) %s { unimplemented!() } }" % (ty, nm, sig[0], sig[1], ret))
+        notes.append("R9-auto: method `%s::%s` (%s) is not under contract; declared external with its real signature and NO contract (any result, any change of `self`)" % (ty, nm, sig[3]))
     k = src.rfind("} // verus!")
     if k < 0:
         return None, []
